@@ -840,8 +840,8 @@ fn run_edit(c: &mut Ctx) {
 }
 
 fn run_stale_parms(c: &mut Ctx) {
-    // compress with a DecodeParms entry but no Filter (finding F-C09-c territory, separate stream)
-    for i in 0..c.n(40, 60) {
+    // compress with a DecodeParms entry but no Filter (the repaired F-C09-c: a failure here is a violation)
+    for i in 0..c.n(300, 3000) {
         let Some(mut r) = c.case("compress.stale_parms", i) else { continue };
         let (s, _) = gen_edit_stream(&mut r, false, true);
         c.nontrivial(&stream_tok(&s));
@@ -896,7 +896,7 @@ fn run_witnesses(c: &mut Ctx) {
         let reproduced = !matches!(&got, Ok(Ok(v)) if *v == plain);
         c.witness("F-C09-b", reproduced, &format!("Filter [/FlateDecode] DecodeParms [<</Predictor 12 /Columns 2>>], plaintext 01020304: decoded {}", out_reply(&got)));
     }
-    // F-C09-c: compress keeps a DecodeParms entry that then applies to the new FlateDecode filter
+    // regression: F-C09-c (repaired by 7763e3b) — compress must drop a stale DecodeParms entry
     // (same stream as Lean `Lopdf.wStale`: 40 bytes 0x09 — not a PNG filter type — Predictor 12, Columns 4)
     if let Some(_) = c.case("witness.stale_parms", 0) {
         let mut pd = Dictionary::new();
@@ -931,6 +931,6 @@ any malformed / edit case; distinct by request text.".into();
     run_edit(c);
     // streams inside known-finding territory come last and are small, so that they cannot crowd
     // a new failure of the main streams out of the (capped) failure list
-    run_parms_array(c);
     run_stale_parms(c);
+    run_parms_array(c);
 }
